@@ -467,14 +467,17 @@ class ExcelCompiler:
             cell_or_range.value = value
 
     def _reset(self, cell):
-        if cell.needs_calc:
+        # a range that is only used as a reference (ie: range intersection) is
+        # not evaluated again with its dependants, so always look behind ranges
+        if cell.needs_calc and not isinstance(cell, _CellRange):
             return
         self.log.info(f"Resetting {cell.address}")
         cell.value = None
 
         if cell in self.dep_graph:
             for child_cell in self.dep_graph.successors(cell):
-                if child_cell.value is not None:
+                if (child_cell.value is not None or
+                        isinstance(child_cell, _CellRange)):
                     self._reset(child_cell)
 
     def value_tree_str(self, address, indent=0):
